@@ -5,14 +5,19 @@ from fractions import Fraction
 
 VERIF = os.path.dirname(os.path.dirname(os.path.abspath(__file__)))
 REPO = os.environ.get("VERIF_REPO", "/repo")
-COQ = os.path.join(VERIF, "coq")
-BUILD = os.path.join(VERIF, "build")
+# VERIF_WORK (optional): an isolated work area — its own copy of the Coq tree, build directory, evidence and replays — so that
+# several trees (e.g. seeded changes in scratch worktrees, VERIF_REPO) can be checked in parallel without touching /verif's outputs
+WORK = os.environ.get("VERIF_WORK") or VERIF
+COQ = os.path.join(WORK, "coq")
+BUILD = os.path.join(WORK, "build")
+if WORK != VERIF and not os.path.exists(COQ):
+    shutil.copytree(os.path.join(VERIF, "coq"), COQ, ignore=shutil.ignore_patterns("*.vo", "*.vok", "*.vos", "*.glob", "*.aux", ".*.aux", "Makefile*", ".Makefile.d"))
 PY = "/venv/bin/python"
 NPROC = os.cpu_count() or 8
 
 os.makedirs(BUILD, exist_ok=True)
-os.makedirs(os.path.join(VERIF, "evidence"), exist_ok=True)
-os.makedirs(os.path.join(VERIF, "replays"), exist_ok=True)
+os.makedirs(os.path.join(WORK, "evidence"), exist_ok=True)
+os.makedirs(os.path.join(WORK, "replays"), exist_ok=True)
 
 
 def sh(cmd, timeout=600, cwd=None, env=None, inp=None):
@@ -106,7 +111,7 @@ class Check:
     def regenerate(self):
         """regenerate gen/Src.v from /repo; returns status dict"""
         with Lock():
-            rc, out, err = sh([PY, os.path.join(VERIF, "tools", "srcgen.py")], timeout=120)
+            rc, out, err = sh([PY, os.path.join(VERIF, "tools", "srcgen.py")], timeout=120, env={"VERIF_COQ": COQ})
         line = [l for l in out.splitlines() if l.startswith("{")]
         st = json.loads(line[-1]) if line else {"ok": False, "error": (err or out)[-400:]}
         self.srcgen_status = st
@@ -238,7 +243,7 @@ class Check:
             if not any(k[0] is kf for k in self.known_hits):
                 self.known_hits.append((kf, kf.get("what", required)))
             return None
-        path = os.path.join(VERIF, "replays", f"{self.pid}_{sig}.json")
+        path = os.path.join(WORK, "replays", f"{self.pid}_{sig}.json")
         with open(path, "w") as f:
             json.dump(payload, f, indent=1, default=str)
         self.violations.append((path, found_input, payload))
@@ -289,7 +294,7 @@ class Check:
               "known_findings_reproduced": [k[0].get("signature") for k in self.known_hits],
               "broken_obligations": self.broken, "notes": self.notes, "repo_hash": repo_hash()}
         if not getattr(self, "replaying", False):       # a replay never rewrites the evidence of the last check run
-            with open(os.path.join(VERIF, "evidence", f"{self.pid}.json"), "w") as f:
+            with open(os.path.join(WORK, "evidence", f"{self.pid}.json"), "w") as f:
                 json.dump(ev, f, indent=1, default=str)
         shutil.rmtree(self.scratch, ignore_errors=True)
         for kf, what in self.known_hits:
